@@ -1222,10 +1222,12 @@ class Suspender(Interrupter):
         console.terse("Suspender {0}\n".format(self.name))
 
     def deactivize(self, aux, **kwa):
-        """ If not aux.done Then force deactivate. Used in exit action."""
+        """ If aux still active Then force deactivate. Used in exit action."""
         # only if aux is active under this act's frame since the same original
         # aux may be active as auxiliary of another frame that is not exiting
-        if not aux.done and (not aux.original or aux.main is self._act.frame):
+        # aux marked done from outside by done verb still has its frames entered
+        if ((not aux.done or aux.actives) and
+                (not aux.original or aux.main is self._act.frame)):
             console.profuse("{0} deactivate {1}\n".format(self.name, aux.name))
             self.deactivate(aux)
 
